@@ -71,10 +71,13 @@ def _debug_name(fn, loc, depth=0):
     for k, v in fn.debug.items():
         if v.strip() == loc:
             return k
-    if depth < 3:
+    if depth < 5:
         ds = fn.build_defs().get(loc) or []
         if len(ds) == 1:
             mm = re.match(r"^(?:copy |move |&mut |&)?\(?\*?(_\d+)\)?$", ds[0][2].strip())
+            if mm:
+                return _debug_name(fn, mm.group(1), depth + 1)
+            mm = re.match(r"^CALL <.* as (?:std::ops::)?(?:Deref|DerefMut|AsRef<.*>|AsMut<.*>|Borrow<.*>)>::\w+\((?:move |copy )?(_\d+)\)$", ds[0][2].strip())
             if mm:
                 return _debug_name(fn, mm.group(1), depth + 1)
     return ""
